@@ -121,7 +121,8 @@ CLAIMS["C04"] = {
     "text": "Scalar leaves only: for every value of i8..u64, f32, f64, bool, char the solver decides that serialize_* "
             "yields the Value of the same mathematical value / bits, and that every numeric deserialize_* hands exactly "
             "the stored payload to the visitor method matching its representation; with Serde's primitive visitors this "
-            "is the scalar round trip at every width and boundary.",
+            "is the scalar round trip at every width and boundary. Text path of byte buffers: parse_byte_list accepts "
+            "every octet 0..255 and rejects 256 (any list length).",
     "note": "Narrow by design: every structural category (sequences, maps, structs, enums, options of options) and the "
             "text path are NOT decided - the collectors build Value trees through Value::list/append, which is outside "
             "both engines (measured). The C14 dispatch tables cover the deserializer side of structure.",
@@ -144,9 +145,10 @@ CLAIMS["C18"] = {
     "technique": "reachability of every panic site in serde-lexpr's value deserializer under an arbitrary input Value (z3)",
     "text": "No panic is reachable in any deserialize_* method or access step for any input value, except the documented "
             "expect in next_value_seed, reachable only when the visitor asks for a value after the end of the map; "
-            "all rejections are message errors, classified as Category::Data.",
-    "note": "The re-serialisation self-consistency clause (deserialize . serialize . deserialize) is outside: it needs "
-            "whole Value trees. Visitors are abstract (arbitrary result), so totality of user visitors is not claimed.",
+            "all rejections are message errors, classified as Category::Data; integer serialisation keeps the value "
+            "(one half of self-consistency).",
+    "note": "The re-serialisation self-consistency clause for structured values is outside the solver (whole Value "
+            "trees); a native serde corpus (3469 cases) is used as confirmation only. Visitors are abstract (arbitrary result), so totality of user visitors is not claimed.",
 }
 CLAIMS["C01"] = {
     "engine": "E2-mirsym + E1-kani",
@@ -180,7 +182,10 @@ CLAIMS["C06"] = {
     "text": "E2: in 23 scanner / kernel functions and the 4 builders a failing read (resp. failing callee) ends the "
             "function with that error on every path - never a value, never EOF, never another error. E1: for every "
             "input of <= 3 bytes the symbol scanner (quick) and the string / character scanners (thorough) give the same "
-            "result, error category and consumed prefix for byte-slice, stream and (valid UTF-8) str input.",
+            "result, error category and consumed prefix for byte-slice, stream and (valid UTF-8) str input. E2 scanner "
+            "claims: the slice and the stream implementation of the symbol and R6RS string scanners each meet ONE "
+            "specification for inputs of any length (terminators, one byte per step, exact range / copied bytes, in-bounds "
+            "slicing, I/O errors at the failing byte).",
     "note": "IoRead reads through io::Bytes one byte per read call, so chunking schedules are immaterial (stated, not "
             "explored); Interrupted is retried inside std's Bytes (trusted). Whole-parser slice-vs-stream equality on "
             "long inputs is not executed.",
@@ -202,9 +207,11 @@ CLAIMS["C10"] = {
     "technique": "lockstep symbolic execution of value and datum readers over shared symbolic callee results (z3)",
     "text": "next_datum vs next_value, parse_list_meta vs parse_list, parse_vector_meta vs parse_vector: for every "
             "reader / token / callee behaviour the datum variant takes exactly the same steps with the same arguments, "
-            "error codes, depth budget and empty/non-empty outcome.",
-    "note": "Datum accessor agreement (Ref::list_iter etc.) on built data is not decided (needs parsed Datums; Kani cannot "
-            "run the datum parser symbolically).",
+            "error codes, depth budget and empty/non-empty outcome. Accessors: one step of datum::ListIter::next from each "
+            "of its 4 states over an abstract cell yields what the value's own accessors expose (car with its span; pair -> "
+            "next cell, () -> end, anything else incl. #nil -> None then the tail once).",
+    "note": "The accessor claim assumes span information shaped as the builders shape it (SpanInfo::Cons / Vec exactly "
+            "where the value is a pair / vector); vector_iter and as_pair are not separate claims.",
 }
 CLAIMS["C11"] = {
     "engine": "E1-kani + E2-mirsym",
@@ -228,13 +235,15 @@ CLAIMS["C13"] = {
     "note": "Fixed-point of whole texts is not executed; lenient symbols with unusual constituents are not modelled (names abstract).",
 }
 CLAIMS["C16"] = {
-    "engine": "E1-kani",
+    "engine": "E2-mirsym + E1-kani",
     "design_ref": "DESIGN.md §1 C16",
-    "technique": "CBMC per-function recursion bounds (--unwindset) with unwinding assertions on 5-element lists; native 300000-element witnesses",
-    "text": "For a 5-element list, clone and == complete with recursion depth <= 3 in the functions involved and the "
-            "iterators / indexing / predicates with no recursion; a function recursing per element violates the bound. "
-            "Violations are confirmed natively on 300000 elements with a 2 MiB stack.",
-    "note": "drop glue (Kani out of memory), Debug and the Datum operations are outside the solver's reach; two open "
+    "technique": "symbolic execution (z3) of Cons::clone / eq / drop and deserialize_ignored_any on abstract cells; CBMC per-function "
+                 "recursion bounds (--unwindset) with unwinding assertions on 5-element lists; native 60000-300000-element witnesses",
+    "text": "E2: Cons::clone and == never make a nested call on a cdr that is a pair; the hand-written Drop returns early only "
+            "when at most two cells follow (proper or dotted) and otherwise takes one cell off per loop pass; skipping an "
+            "unknown serde field (deserialize_ignored_any) never walks the value. E1: for a 5-element list the iterators / "
+            "indexing / predicates complete with no recursion. Violations are confirmed natively on long lists with a 2 MiB stack.",
+    "note": "compiler-generated drop glue, Debug and the Datum operations are outside the solver's reach; two open "
             "known findings (Datum clone/==, Debug) are re-checked natively on every run.",
 }
 CLAIMS["C17"] = {
@@ -243,7 +252,9 @@ CLAIMS["C17"] = {
     "technique": "symbolic execution of the escape decoders' appends to the scratch buffer (z3); Kani re-validation of returned names",
     "text": "E2: R6RS escapes append only ASCII bytes or the UTF-8 encoding of a valid scalar value; Emacs escapes append "
             "raw bytes only on the unibyte path; kernels are panic-free. E1: every name the symbol scanner returns from "
-            "arbitrary bytes (slice, stream) or valid UTF-8 (str, unchecked path) re-validates (<= 2 bytes quick, <= 3 thorough).",
+            "arbitrary bytes (slice, stream) or valid UTF-8 (str, unchecked path) re-validates (<= 2 bytes quick, <= 3 thorough). "
+            "E2 scanner claims: text handed to the str conversion is exactly the scanned range; from_utf8_unchecked occurs only "
+            "in StrRead's two closures.",
     "note": "The printer side (to_string == to_vec) is checked natively by the print corpus only.",
 }
 CLAIMS["C19"] = {
@@ -251,7 +262,8 @@ CLAIMS["C19"] = {
     "design_ref": "DESIGN.md §1 C19",
     "technique": "symbolic execution of Error::classify / From<Error> and of the scanners' EOF paths (z3); Kani on reported positions",
     "text": "classify and io::Error conversion for all 19 codes; an error decided on a read at end of input is an EOF-"
-            "category error in the number scanner and the 11 reader kernels; every reported position lies inside the input (E1).",
+            "category error in the number scanner and the 11 reader kernels; the `.name` branch of the list builders is never "
+            "taken at the end of input; every reported position lies inside the input (E1).",
     "note": "Two open known findings (character names / hex scalars cut at end of input) are excluded by a named predicate.",
 }
 
